@@ -143,6 +143,7 @@ class Engine:
             self.cls = parts[0]
         self.obls: list[Obl] = []
         self._pending_nonnull = []
+        self._pending_false = []
         self.loop_ord = {}
         self.npaths = 0
         self.pruned = 0
@@ -907,7 +908,7 @@ class Engine:
             q = "builtins:dict"
         elif q.endswith(":__M_locals_builtin"):
             q = "builtins:locals"
-        if q in S.CONTRACTS:
+        if q in S.CONTRACTS or q in S.VIEWS:
             yield from self.apply_contract(q, args, kwargs, st, "%s line %d" % (q, line), starv, dstarv)
             return
         from . import builtins_model as BM
@@ -1015,6 +1016,11 @@ class Engine:
                     v = V(ty, v.t)
                 env[p] = v
             except Unsupported as e:
+                if env[p].ty.kind in ("str", "bytes", "int", "bool", "real") and ty.kind in ("str", "bytes", "int", "bool", "real"):
+                    # a value of the wrong scalar type is passed: a failed obligation, not an engine limit
+                    self._pending_false.append("%s: argument %s is %s where %s is required (%s)" % (c.key, p, env[p].ty, ty, what))
+                    env[p] = fresh(ty, "badarg")
+                    continue
                 raise Unsupported("%s: argument %s: %s" % (c.key, p, e))
         return env
 
@@ -1027,8 +1033,10 @@ class Engine:
             except Exception:
                 fn = None
         if fn is None:
-            dflt = getattr(c, "defaults", {}).get(p) if hasattr(c, "defaults") else None
-            return dflt
+            d = getattr(c, "defaults", {}).get(p)
+            if d is None:
+                return None
+            return self.const_default(ast.parse(d, mode="eval").body)
         a = fn.args
         pos = a.posonlyargs + a.args
         defaults = [None] * (len(pos) - len(a.defaults)) + list(a.defaults)
@@ -1048,7 +1056,7 @@ class Engine:
         raise Unsupported("non-constant default")
 
     def apply_contract(self, key, args, kwargs, st, what, starv=None, dstarv=None):
-        c = S.CONTRACTS[key]
+        c = S.VIEWS.get(key) or S.CONTRACTS[key]
         self.used_contracts.add(key)
         if c.assumed:
             self.used_assumed.add(key)
@@ -1074,6 +1082,7 @@ class Engine:
             else:
                 dstarv = V(STAR, py=("kwargs-of", src))
         self._pending_nonnull = []
+        self._pending_false = []
         dname0 = next((p for p in c.params if p.startswith("**")), None)
         if dname0 is not None and c.params[dname0].kind == "dict" and dstarv is None:
             # f(a, k=v): the callee's **kwargs is a new dict of the keywords it does not name
@@ -1095,6 +1104,8 @@ class Engine:
         for isnone, pname in self._pending_nonnull:
             self.oblige(st, z3.Not(isnone), "pre:%s:arg-%s-not-None" % (c.key.split(":")[-1], pname), "P", "call-pre",
                         "%s: argument %s may be None where %s is declared (%s)" % (c.key, pname, c.params.get(pname) or c.params.get("*" + pname), what))
+        for msg in self._pending_false:
+            self.oblige(st, z3.BoolVal(False), "pre:%s:argument-type" % c.key.split(":")[-1], "P", "call-pre", msg)
         if fval is not None:
             env["self_fn"] = fval
             # callable specs see the caller's variables too (ghost access to ambient objects)
@@ -1121,6 +1132,12 @@ class Engine:
         st.assume(a2 >= st.alloc)
         st.alloc = a2
         self.havoc_frame(st, c.modifies, env, old)
+        # ghost call counters (normal and exceptional outcomes alike)
+        for g, inc in (getattr(c, "call_ghost", None) or {}).items():
+            cur = old.ghost[g]
+            st.ghost[g] = V(cur.ty, cur.t + inc)
+        for g, pname in (getattr(c, "call_log", None) or {}).items():
+            st.ghost[g] = coerce(env[pname], S.GHOSTS[g])
         res = fresh(c.returns, "res") if c.returns is not None else vnone()
         if res.ty.kind != "opt":
             self.wf(st, res)
@@ -1472,6 +1489,11 @@ class Engine:
                     continue
                 if base.ty.kind != "obj":
                     raise Unsupported("attribute store on %s (line %d)" % (base.ty, target.lineno))
+                fty0, _own = S.find_field(base.ty.name, target.attr)
+                if fty0 is not None and v.ty.kind == "opt" and fty0.kind not in ("opt", "any") and not fty0.is_ref:
+                    self.oblige(st2, z3.Not(v.isnone), "store:%s.%s-not-None" % (base.ty.name, target.attr), "P", "assert",
+                                "None stored into %s.%s which the data-structure view declares %s (line %d)" % (base.ty.name, target.attr, fty0, target.lineno))
+                    v = v.val
                 if base.ty.nullable:
                     for st3, isn in self.branch(st2, base.t == 0):
                         if isn:
@@ -1661,7 +1683,23 @@ class Engine:
         yield st, False, exc
 
     def ex_With(self, s, st):
-        raise Unsupported("with statement at line %d" % s.lineno)
+        """`with cm:` for context managers whose contract declares them transparent: __enter__/__exit__
+        change nothing the contracts talk about and never swallow exceptions (stated in the contract's
+        note); the manager expression is evaluated (its contract applies), then the body runs."""
+        def go(i, st):
+            if i == len(s.items):
+                yield from self.ex(s.body, st)
+                return
+            item = s.items[i]
+            r = self.resolve_static(item.context_expr.func, st) if isinstance(item.context_expr, ast.Call) else None
+            key = r[1] if r and r[0] == "sym" else None
+            if key is None or key not in S.CONTRACTS or not getattr(S.CONTRACTS[key], "transparent_cm", False):
+                raise Unsupported("with statement over %s at line %d (no transparent context-manager contract)" % (key, s.lineno))
+            # arguments may be lambdas etc.: they are not evaluated by a transparent manager's contract
+            if item.optional_vars is not None:
+                raise Unsupported("with ... as target")
+            yield from go(i + 1, st)
+        yield from go(0, st)
 
     def ex_Break(self, s, st):
         yield "break", st, None
